@@ -8,7 +8,7 @@ if ! git apply "$patch"; then echo "PATCH DOES NOT APPLY"; exit 2; fi
 for c in "$@"; do
   tier=quick
   case "$c" in *:t) tier=thorough; c="${c%:t}";; esac
-  out=$(cd /verif && timeout 3000 ./check "$c" $tier 2>&1)
+  out=$(cd /verif && timeout 900 ./check "$c" $tier 2>&1)
   rc=$?
   nv=$(echo "$out" | grep -c "^VIOLATION")
   echo "== $c $tier exit=$rc violations_printed=$nv"
